@@ -4,6 +4,7 @@ import Regatta.Driver.ViewMode
 import Regatta.Driver.FsmMode
 import Regatta.Driver.LogMode
 import Regatta.Driver.MetaMode
+import Regatta.Driver.QueueMode
 /-
   Model driver: one operation per input line, one answer per output line.
   usage: driver <mode> < ops.txt > model.txt
@@ -28,6 +29,8 @@ def main (args : List String) : IO UInt32 := do
   | ["log"] => loop stdin stdout Driver.LogMode.step ({} : Driver.LogMode.St)
   | ["meta"] => loop stdin stdout Driver.MetaMode.step ([] : Driver.MetaMode.St)
   | ["catalog"] => loop stdin stdout Driver.MetaMode.cstep ({} : Driver.MetaMode.CSt)
+  | ["queue"] => loop stdin stdout Driver.QueueMode.step ({} : Driver.QueueMode.St)
+  | ["heap"] => loop stdin stdout Driver.QueueMode.hstep ([] : Queue.Heap)
   | _ => IO.eprintln "usage: driver <mode>"; return 2
   stdout.flush
   return 0
